@@ -67,20 +67,22 @@ func isWordLike(tt css.TokenType) bool {
 // with the information whether whitespace/comment separated them in the source
 type srcTok struct {
 	cssTok
-	sepBefore bool
+	sepBefore bool // whitespace or a comment stands before it
+	wsBefore  bool // whitespace stands before it
 }
 
 func srcTokens(s string) []srcTok {
 	ref := refCSSLex([]byte(s))
 	var r []srcTok
-	sep := false
+	sep, ws := false, false
 	for _, t := range ref.toks {
 		if t.tt == css.WhitespaceToken || t.tt == css.CommentToken {
 			sep = true
+			ws = ws || t.tt == css.WhitespaceToken
 			continue
 		}
-		r = append(r, srcTok{cssTok{t.tt, s[t.start:t.end]}, sep})
-		sep = false
+		r = append(r, srcTok{cssTok{t.tt, s[t.start:t.end]}, sep, ws})
+		sep, ws = false, false
 	}
 	return r
 }
@@ -110,7 +112,7 @@ func checkValues(ctx string, src string, vals []cssTok) string {
 	for i, v := range vals {
 		if v.tt != css.WhitespaceToken {
 			// 3. whitespace that carries meaning must be kept
-			if k > 0 && want[k].sepBefore && (i == 0 || vals[i-1].tt != css.WhitespaceToken) {
+			if k > 0 && (want[k].wsBefore || ctx != "selector" && want[k].sepBefore) && (i == 0 || vals[i-1].tt != css.WhitespaceToken) {
 				a, b := want[k-1], want[k]
 				must := false
 				switch ctx {
@@ -151,6 +153,19 @@ func checkValues(ctx string, src string, vals []cssTok) string {
 		}
 		if k >= len(want) || !want[k].sepBefore {
 			return fmt.Sprintf("whitespace token before %q although the source %q has none there", vals[i+1].data, src)
+		}
+		// 4. in a selector whitespace is kept only between tokens that are not punctuation: never next to a combinator or comma,
+		// for the selector of a nested ruleset as for that of a top-level one
+		if ctx == "selector" && !want[k].wsBefore {
+			// a comment alone does not separate two compound selectors: ".a/**/.b" is ".a.b", not ".a .b"
+			return fmt.Sprintf("whitespace token before %q in the selector %q although the source has only a comment there", vals[i+1].data, src)
+		}
+		if ctx == "selector" && inAttr == 0 {
+			for _, nb := range []string{vals[i-1].data, vals[i+1].data} {
+				if nb == "," || nb == ">" || nb == "+" || nb == "~" {
+					return fmt.Sprintf("whitespace token next to %q in the selector %q", nb, src)
+				}
+			}
 		}
 	}
 	return ""
@@ -283,6 +298,15 @@ func c08TopItems(thorough bool) []cItem {
 		inner := ruleset("&:hover", dl[(i*3+1)%len(dl)])
 		items = append(items, ruleset(s, gCat(declItem(c08Decls[i], ";"), inner, declItem(c08Decls[i+1], ""))), ruleset(s, inner), ruleset(s, gCat(inner, ruleset(".d &", dl[2]))),
 			ruleset(s, gCat(declItem(c08Decls[i], ";"), atBlock("@media", "print", ruleset("b", dl[1])))))
+	}
+	// every selector that the parser can take for the start of a nested ruleset (an identifier or a delimiter first), nested
+	for i, s := range c08Selectors {
+		if c := s[0]; c >= 'a' && c <= 'z' || c >= 'A' && c <= 'Z' || c == '.' || c == '*' {
+			items = append(items, ruleset("x", ruleset(s, dl[(i*7+1)%len(dl)])), ruleset("x", gCat(declItem(c08Decls[i%len(c08Decls)], ";"), ruleset(s, dl[1]), ruleset("& "+s, dl[2]))))
+		}
+	}
+	for _, s := range []string{"* b", "* > b", ".a/*c*/.b", ".a/*c*/ /*d*/.b", "b/**/c", "& /**/> b", "b [c]", "b[c] [d]", "b[ c ]", "b , c", "b ,c", "b, c", "b + c", "b ~ c", "b >c", "b> c"} {
+		items = append(items, ruleset("x", ruleset(s, dl[1])), ruleset(s, dl[1]))
 	}
 	// at-rules
 	for i, p := range c08Preludes {
@@ -438,20 +462,6 @@ func c08Any(c *engine.Ctx, in []byte, args map[string]string) {
 				continue
 			}
 			lt := asciiLower([]byte(t.data))
-			if len(lt) > 1 && lt[0] == '*' && !bytes.Contains(lower[pos:], lt) {
-				// IE hack: "*" and the following token are joined into one token (whitespace between them dropped)
-				j := bytes.IndexByte(lower[pos:], '*')
-				k := -1
-				if j >= 0 {
-					k = bytes.Index(lower[pos+j+1:], lt[1:])
-				}
-				if j < 0 || k < 0 {
-					c.Fail("token-not-in-source", desc()+fmt.Sprintf(": unit %d reports %q which does not occur in the input after byte %d", i, t.data, pos))
-					return
-				}
-				pos += j + 1 + k + len(lt) - 1
-				continue
-			}
 			j := bytes.Index(lower[pos:], lt)
 			if j < 0 {
 				// the same text may legitimately be reported twice (a '}' that ends a declaration is delivered again)
@@ -580,7 +590,7 @@ func c08Work(c *engine.Ctx) {
 func init() {
 	register(&engine.Check{
 		ID: "C08", Level: "exploration",
-		Rule:        "well-formed stylesheets = every single and every ordered pair (every third pair in quick) of ~330 top-level items × {adjacent, space, comment between}: rulesets (24 selectors incl. combinators, attribute selectors, functional pseudo-classes, comments) × declaration lists (20 declarations incl. functions, nested parentheses, strings, urls, !important, IE hacks, progid filters; 7 custom-property values incl. braces and semicolons; ';' variants), nested rulesets and at-rules inside rulesets, every block at-rule kind of css/hash.go in three spellings + vendor prefixes × 8 preludes × bodies, statement at-rules, unknown at-rules (token soup), top-level comments and CDO/CDC; inline declaration lists. Expected unit stream (type, lower-cased name) by construction; Values() without whitespace == the source's component tokens (reference tokenizer of C07), whitespace tokens single/non-adjacent/only where the source has whitespace and present where it separates compound selectors or word-like value tokens; custom-property values exact. All byte strings ≤3-4 (4-5) atoms over the CSS alphabets and edit balls around the CSS seeds in both modes: shadow stack of Begin/End units, no unclosed Begin at the EOF report unless a parse error was reported, every reported token occurs in the input in source order",
+		Rule:        "well-formed stylesheets = every single and every ordered pair (every third pair in quick) of ~330 top-level items × {adjacent, space, comment between}: rulesets (24 selectors incl. combinators, attribute selectors, functional pseudo-classes, comments) × declaration lists (20 declarations incl. functions, nested parentheses, strings, urls, !important, IE hacks, progid filters; 7 custom-property values incl. braces and semicolons; ';' variants), nested rulesets and at-rules inside rulesets, every block at-rule kind of css/hash.go in three spellings + vendor prefixes × 8 preludes × bodies, statement at-rules, unknown at-rules (token soup), top-level comments and CDO/CDC; inline declaration lists. Expected unit stream (type, lower-cased name) by construction; Values() without whitespace == the source's component tokens (reference tokenizer of C07), whitespace tokens single/non-adjacent/only where the source has whitespace and present where it separates compound selectors or word-like value tokens, absent next to a combinator or comma of a selector (nested rulesets as top-level ones); custom-property values exact. All byte strings ≤3-4 (4-5) atoms over the CSS alphabets and edit balls around the CSS seeds in both modes: shadow stack of Begin/End units, no unclosed Begin at the EOF report unless a parse error was reported, every reported token occurs in the input in source order",
 		Assumptions: []string{"'whitespace must be kept' is required only where it separates two compound selectors, two word-like value tokens, or a word-like token and a parenthesis in an at-rule prelude", "after a reported parse error only the conservation clause is checked"},
 		Setup:       c08Setup, Work: c08Work,
 	})
